@@ -266,4 +266,247 @@ example : (runBatches { sort := false, shuffle := false, padded := true, prefetc
     { rest := [⟨0, 2⟩, ⟨1, 3⟩, ⟨2, 3⟩, ⟨3, 9⟩, ⟨4, 1⟩], buf := [] }
     [[⟨0, 2⟩, ⟨1, 3⟩], [⟨2, 3⟩], [⟨3, 9⟩], [⟨4, 1⟩]]).map finished = some true := by decide
 
+/-! ### progress: the iteration cannot get stuck -/
+
+/-- the plain-mode side condition of `step_progress` is an invariant of runs from the initial state -/
+theorem plain_buf_le_one (cfg : BCfg) (hs : cfg.sort = false) (hsh : cfg.shuffle = false) :
+    ∀ (bs : List (List Item)) (st st' : BState), st.buf.length ≤ 1 → runBatches cfg st bs = some st' → st'.buf.length ≤ 1 := by
+  intro bs
+  induction bs with
+  | nil => intro st st' hl h; simp [runBatches] at h; subst h; exact hl
+  | cons b bs ih =>
+    intro st st' _ h
+    simp only [runBatches] at h
+    cases hst : stepAllowed cfg st b with
+    | none => simp [hst] at h
+    | some st1 =>
+      simp only [hst] at h
+      exact ih st1 st' (plain_step cfg hs hsh st b st1 hst).2.2.2.1 h
+
+theorem progress_plain (cfg : BCfg) (st : BState) (hs : cfg.sort = false) (hsh : cfg.shuffle = false)
+    (hne : st.buf ++ st.rest ≠ []) (hl : st.buf.length ≤ 1) : ∃ b st', stepAllowed cfg st b = some st' := by
+  cases hbf : batchFrom cfg.padded cfg.lim (st.buf ++ st.rest) with
+  | mk got r =>
+  obtain ⟨rem, un⟩ := r
+  have hgot := (batchFrom_spec _ _ _ _ _ _ hbf).2.2.2.2 hne
+  refine ⟨got, { rest := un, buf := rem.toList }, ?_⟩
+  unfold stepAllowed
+  have : ¬ st.buf.length > 1 := by omega
+  simp [hs, hsh, hgot, this, hbf]
+
+theorem fillBuf_ne (p : Bool) (cap : Nat) : ∀ (rest buf : List Item) (c m : Nat),
+    (buf ≠ [] ∨ (rest ≠ [] ∧ limOf p c m ≤ cap)) → (fillBuf p cap rest buf c m).1 ≠ [] := by
+  intro rest
+  induction rest with
+  | nil => intro buf c m h; rcases h with h | h
+           · simpa [fillBuf] using h
+           · exact absurd rfl h.1
+  | cons x xs ih =>
+    intro buf c m h
+    unfold fillBuf
+    split
+    · exact ih _ _ _ (Or.inl (by simp))
+    · rename_i hc
+      rcases h with h | h
+      · exact h
+      · exact absurd h.2 hc
+
+theorem fillBuf_ne' (cfg : BCfg) (st : BState) (hne : st.buf ++ st.rest ≠ []) :
+    (fillBuf cfg.padded (cfg.lim * cfg.pf) st.rest st.buf st.buf.length (maxSize st.buf)).1 ≠ [] := by
+  apply fillBuf_ne
+  by_cases hb : st.buf = []
+  · right
+    refine ⟨by simpa [hb] using hne, ?_⟩
+    simp [hb, maxSize, limOf]
+  · exact Or.inl hb
+
+theorem sortBySize_ne {l : List Item} (h : l ≠ []) : sortBySize l ≠ [] := by
+  intro h0
+  have := (List.mergeSort_perm l (fun a b => a.size ≤ b.size)).length_eq
+  unfold sortBySize at h0
+  rw [h0] at this
+  cases l <;> simp_all
+
+theorem progress_sort (cfg : BCfg) (st : BState) (hs : cfg.sort = true) (hsh : cfg.shuffle = false)
+    (hne : st.buf ++ st.rest ≠ []) : ∃ b st', stepAllowed cfg st b = some st' := by
+  have hfne := fillBuf_ne' cfg st hne
+  cases hfb : fillBuf cfg.padded (cfg.lim * cfg.pf) st.rest st.buf st.buf.length (maxSize st.buf) with
+  | mk buf rest' =>
+  rw [hfb] at hfne
+  simp only at hfne
+  have hsne : (sortBySize buf).reverse ≠ [] := by simpa using sortBySize_ne hfne
+  cases hbf : batchFrom cfg.padded cfg.lim (sortBySize buf).reverse with
+  | mk got r =>
+  obtain ⟨rem, un⟩ := r
+  have hgot := (batchFrom_spec _ _ _ _ _ _ hbf).2.2.2.2 hsne
+  refine ⟨got, { rest := rest', buf := un.reverse ++ rem.toList }, ?_⟩
+  unfold stepAllowed
+  simp [hs, hsh, hgot, hfb, hfne, hbf]
+
+/-- every window produced by the main loop is non-empty and starts inside the array -/
+theorem subseqLoop_windows (sz : Nat → Nat → Nat) (n k : Nat) :
+    ∀ (fuel st en prev : Nat) (acc : List (Nat × Nat)),
+      (∀ w ∈ acc, w.1 < w.2 ∧ w.1 < n) → st < en → (prev ≤ k → en = st + 1 → sz st en ≤ k) →
+      ∀ w ∈ subseqLoop sz n k fuel st en prev acc, w.1 < w.2 ∧ w.1 < n := by
+  intro fuel
+  induction fuel with
+  | zero => intro st en prev acc ha _ _ w hw; simp [subseqLoop] at hw; exact ha w hw
+  | succ fuel ih =>
+    intro st en prev acc ha hlt hp w hw
+    unfold subseqLoop at hw
+    split at hw
+    · rename_i hb
+      simp only at hw
+      split at hw
+      · rename_i hs
+        refine ih _ _ _ _ ?_ (by omega) (by intro _ h; omega) w hw
+        intro v hv
+        split at hv
+        · rcases List.mem_cons.mp hv with rfl | hv
+          · exact ⟨hlt, hb.1⟩
+          · exact ha v hv
+        · exact ha v hv
+      · split at hw
+        · rename_i hs hpk
+          have hen : en ≠ st + 1 := fun h => hs (hp hpk h)
+          refine ih _ _ _ _ ?_ (by omega) (by intro h; omega) w hw
+          intro v hv
+          rcases List.mem_cons.mp hv with rfl | hv
+          · exact ⟨by simp only; omega, hb.1⟩
+          · exact ha v hv
+        · rename_i hs hpk
+          apply ih _ _ _ _ ha (by omega) (by intro h; omega) w hw
+    · simp at hw; exact ha w hw
+
+theorem findSubseq_windows (p : Bool) (values : List Item) (k : Nat) (s e : Nat) (h : (s, e) ∈ findSubseq p values k) :
+    s < e ∧ s < values.length := by
+  unfold findSubseq at h
+  simp only at h
+  split at h
+  · simp at h
+  · rename_i st _
+    exact subseqLoop_windows _ _ _ _ _ _ _ [] (by simp) (by omega) (by intro h1 _; exact h1) (s, e) h
+
+theorem progress_sort_shuffle (cfg : BCfg) (st : BState) (hs : cfg.sort = true) (hsh : cfg.shuffle = true)
+    (hne : st.buf ++ st.rest ≠ []) : ∃ b st', stepAllowed cfg st b = some st' := by
+  have hfne := fillBuf_ne' cfg st hne
+  cases hfb : fillBuf cfg.padded (cfg.lim * cfg.pf) st.rest st.buf st.buf.length (maxSize st.buf) with
+  | mk buf rest' =>
+  rw [hfb] at hfne
+  simp only at hfne
+  have hsne : sortBySize buf ≠ [] := sortBySize_ne hfne
+  cases hsub : findSubseq cfg.padded (sortBySize buf) cfg.lim with
+  | nil =>
+    refine ⟨[(sortBySize buf).getLast hsne], { rest := rest', buf := (sortBySize buf).dropLast }, ?_⟩
+    unfold stepAllowed
+    simp [hs, hsh, hfb, hfne, hsub, List.getLast?_eq_some_getLast hsne]
+  | cons w ws =>
+    obtain ⟨s, e⟩ := w
+    have hw := findSubseq_windows cfg.padded (sortBySize buf) cfg.lim s e (by rw [hsub]; exact List.mem_cons_self)
+    have hbne : ((sortBySize buf).drop s).take (e - s) ≠ [] := by
+      intro h0
+      have := congrArg List.length h0
+      simp only [List.length_take, List.length_drop, List.length_nil] at this
+      omega
+    refine ⟨((sortBySize buf).drop s).take (e - s), { rest := rest', buf := (sortBySize buf).take s ++ (sortBySize buf).drop e }, ?_⟩
+    unfold stepAllowed
+    simp [hs, hsh, hfb, hfne, hsub, hbne]
+
+/-- the greedy prefix is a fixed point of `batch_from` -/
+theorem batchFromAux_idem (p : Bool) (L : Nat) : ∀ (src items : List Item) (c m : Nat) got rem un,
+    batchFromAux p L src items c m = (got, rem, un) →
+    ∃ tk, got = items.reverse ++ tk ∧ batchFromAux p L tk items c m = (got, none, []) := by
+  intro src
+  induction src with
+  | nil =>
+    intro items c m got rem un h
+    simp [batchFromAux] at h
+    exact ⟨[], by simp [h.1], by simp [batchFromAux, h.1]⟩
+  | cons x xs ih =>
+    intro items c m got rem un h
+    unfold batchFromAux at h
+    split at h
+    · simp at h
+      exact ⟨[], by simp [h.1], by simp [batchFromAux, h.1]⟩
+    · rename_i hov
+      obtain ⟨tk, h1, h2⟩ := ih _ _ _ _ _ _ h
+      refine ⟨x :: tk, by simpa using h1, ?_⟩
+      unfold batchFromAux
+      rw [if_neg hov]
+      exact h2
+
+theorem batchFrom_idem (p : Bool) (L : Nat) (src got : List Item) (rem : Option Item) (un : List Item)
+    (h : batchFrom p L src = (got, rem, un)) : batchFrom p L got = (got, none, []) := by
+  obtain ⟨tk, h1, h2⟩ := batchFromAux_idem p L src [] 0 0 got rem un h
+  simp at h1; subst h1
+  exact h2
+
+theorem removeItems_self (l : List Item) : removeItems l l = [] := by
+  unfold removeItems
+  simp [List.filter_eq_nil_iff]
+
+theorem progress_shuffle (cfg : BCfg) (st : BState) (hs : cfg.sort = false) (hsh : cfg.shuffle = true)
+    (hnd : (st.buf ++ st.rest).Nodup) (hne : st.buf ++ st.rest ≠ []) : ∃ b st', stepAllowed cfg st b = some st' := by
+  have hfne := fillBuf_ne' cfg st hne
+  cases hfb : fillBuf cfg.padded (cfg.lim * cfg.pf) st.rest st.buf st.buf.length (maxSize st.buf) with
+  | mk buf rest' =>
+  rw [hfb] at hfne
+  simp only at hfne
+  have hfill := fillBuf_spec _ _ _ _ _ _ _ _ hfb
+  have hbufnd : buf.Nodup := by
+    have : (buf ++ rest').Nodup := by rw [hfill]; exact hnd
+    exact (List.nodup_append.mp this).1
+  cases hbf : batchFrom cfg.padded cfg.lim buf with
+  | mk got r =>
+  obtain ⟨rem, un⟩ := r
+  obtain ⟨h1, _, h3, h4, h5⟩ := batchFrom_spec _ _ _ _ _ _ hbf
+  have hgot := h5 hfne
+  have hidem := batchFrom_idem _ _ _ _ _ _ hbf
+  refine ⟨got, { rest := rest', buf := removeItems buf got }, ?_⟩
+  have hsub : ∀ x ∈ got, x ∈ buf := by
+    intro x hx; rw [← h1]; simp [hx]
+  have hgnd : got.Nodup := by
+    rw [← h1, List.append_assoc] at hbufnd
+    exact (List.nodup_append.mp hbufnd).1
+  have hleft : (removeItems buf got).isEmpty = true ∨
+      (removeItems buf got).any (fun r => limOf cfg.padded (got.length + 1) (max (maxSize got) r.size) > cfg.lim) = true := by
+    cases rem with
+    | none =>
+      left
+      have := h4 rfl; subst this
+      simp at h1; subst h1
+      simp [removeItems_self]
+    | some r =>
+      right
+      have hov := (h3 r rfl).2
+      rw [List.any_eq_true]
+      refine ⟨r, ?_, by simpa using hov⟩
+      unfold removeItems
+      simp only [List.mem_filter, List.contains_eq_mem, Bool.not_eq_true', decide_eq_false_iff_not]
+      constructor
+      · rw [← h1]; simp
+      · intro hr
+        rw [← h1, List.append_assoc] at hbufnd
+        have := (List.nodup_append.mp hbufnd).2.2 r hr r (by simp)
+        exact this rfl
+  have hg : greedyOK cfg.padded cfg.lim buf got = true := by
+    unfold greedyOK
+    rw [hidem]
+    simp only [Bool.and_eq_true, beq_iff_eq, List.isEmpty_iff, List.all_eq_true, List.contains_eq_mem,
+      decide_eq_true_eq, Bool.or_eq_true]
+    exact ⟨⟨⟨⟨trivial, trivial⟩, hsub⟩, hgnd⟩, by simpa using hleft⟩
+  unfold stepAllowed
+  simp [hs, hsh, hfb, hfne, hgot, hg]
+
+/-- **progress**: as long as anything is buffered or left upstream, some batch is allowed — the iteration cannot get stuck
+before everything has been delivered (with `step_decreases` this gives termination with a complete partition) -/
+theorem step_progress (cfg : BCfg) (st : BState) (hnd : (st.buf ++ st.rest).Nodup) (hne : st.buf ++ st.rest ≠ [])
+    (hplain : cfg.sort = false → cfg.shuffle = false → st.buf.length ≤ 1) :
+    ∃ b st', stepAllowed cfg st b = some st' := by
+  cases hs : cfg.sort <;> cases hsh : cfg.shuffle
+  · exact progress_plain cfg st hs hsh hne (hplain hs hsh)
+  · exact progress_shuffle cfg st hs hsh hnd hne
+  · exact progress_sort cfg st hs hsh hne
+  · exact progress_sort_shuffle cfg st hs hsh hne
+
 end Tu.C06
